@@ -751,7 +751,7 @@ def _axis_patterns():
         for axis in range(len(shape)):
             cnt = int(np.prod(shape))
             for how, miss in (("plain", ()), ("nan", (1,)), ("masked_array", (0,)), ("no_data", (cnt - 1,)),
-                              ("masked+nan", (0, 1))):
+                              ("masked+nan", (0, 1)), ("no_data+nan", (0, cnt - 1))):
                 out.append({"shape": shape, "axis": axis, "how": how, "miss": miss})
     return out
 
@@ -773,6 +773,10 @@ def axis(ctx, shape, axis, how, miss):
         fld[missing_] = np.nan
     elif how == "no_data":
         fld[missing_] = -999.0 + 0.005          # np.isclose matching
+        kw["no_data"] = -999.0
+    elif how == "no_data+nan":      # a sentinel AND NaN entries: both are missing values ("NaN ... like removed points")
+        fld[np.unravel_index(miss[0], shape)] = np.nan
+        fld[np.unravel_index(miss[1], shape)] = -999.0
         kw["no_data"] = -999.0
     elif how == "masked_array":
         fld = np.ma.array(fld, mask=missing_)
